@@ -18,7 +18,7 @@ from pvm.gen import mdg as gm
 from pvm.ref.c25_geometry import Network
 
 PROP = "C25"
-N = {"quick": 60, "thorough": 2500}
+N = {"quick": 45, "thorough": 2500}
 WORKERS = {"quick": 4, "thorough": 16}
 TIMEOUT = {"quick": 300, "thorough": 1800}
 CASE_TIMEOUT = 120.0
